@@ -622,17 +622,83 @@ def generate():
     return "\n".join(x for x in out if x), g.status
 
 
+# ------------------------------------------------------------------------------------------------ evaluator
+OUT_EVAL = os.path.normpath(os.path.join(HERE, "..", "lean", "RCE", "Gen", "TranslatedEval.lean"))
+KNAMES = {"Pawn": "pawns", "Knight": "knights", "Bishop": "bishops", "Rook": "rooks", "Queen": "queens", "King": "king"}
+
+
+def tr_i16(e, color):
+    """i16 expression of the evaluator's loop body -> Lean Int expression (model primitives satAdd/satSub/wrapI16)"""
+    k = e[0]
+    if k == "path" and e[1] == ["score"]:
+        return "score"
+    if k == "path" and e[1] == ["value"]:
+        return "(kv.2 : Int)"
+    if k == "as" and e[2] == "i16":
+        inner = e[1]
+        if inner == ("method", ("path", ["board"]), "get_piece_count", [("path", ["kind"])]):
+            # u32 count (at most 64) as i16: lossless
+            return f"((popcount (b.bbs.get ⟨pkOfIdx kv.1, {color}⟩) : Nat) : Int)"
+        raise Unsupported("evaluator: cast of something that is not the piece count")
+    if k == "method" and len(e[3]) == 1 and e[2] in ("saturating_add", "saturating_sub", "wrapping_add", "wrapping_sub"):
+        a, b_ = tr_i16(e[1], color), tr_i16(e[3][0], color)
+        return {"saturating_add": f"(satAdd {a} {b_})", "saturating_sub": f"(satSub {a} {b_})",
+                "wrapping_add": f"(wrapI16 ({a} + {b_}))", "wrapping_sub": f"(wrapI16 ({a} - {b_}))"}[e[2]]
+    if k == "bin" and e[1] in ("*", "+", "-"):
+        # plain i16 arithmetic: wraps in a release build (panics in a debug build)
+        return f"(wrapI16 ({tr_i16(e[2], color)} {e[1]} {tr_i16(e[3], color)}))"
+    raise Unsupported(f"evaluator: expression node {k}")
+
+
+def generate_eval():
+    head = "import RCE.Model.Eval\n/-! GENERATED by tools/gen_translate.py from /repo's source on every run. Do not edit. -/\nnamespace RCE.Gen.Tr\nopen RCE RCE.Gen\n"
+    try:
+        pb = norm(non_test(read("src/board/piece_bitboards.rs")))
+        arms = "".join(f"Kind::{k}(Color::{c})=>self.{c.lower()}_{KNAMES[k]}.count_ones()," for c in ("White", "Black")
+                       for k in ("Pawn", "Knight", "Bishop", "Rook", "Queen", "King"))
+        if "pubconstfnget_piece_count(&self,kind:Kind)->u32{matchkind{" + arms + "}}" not in pb:
+            raise Unsupported("piece_bitboards.rs: get_piece_count is not the plain per-kind count_ones")
+        bd = norm(non_test(read("src/board.rs")))
+        if "fnget_piece_count(&self,kind:Kind)->u32{self.bitboards.get_piece_count(kind)}" not in bd:
+            raise Unsupported("board.rs: Board::get_piece_count does not forward to the piece boards")
+        ev = non_test(read("src/evaluate/simple_evaluator.rs"))
+        body = re.sub(r"\s+", " ", fn_body(ev, r"fn evaluate\(&self, board: &mut Board\) -> Score \{")).strip()
+        m = re.fullmatch(r"let mut score: Score = (\d+); for \(kind, value\) in \[(.*?)\] \{ score = (.*?); \} "
+                         r"for \(kind, value\) in \[(.*?)\] \{ score = (.*?); \} score", body)
+        if not m:
+            raise Unsupported("simple_evaluator.rs: evaluate does not have the two-loop shape")
+        # the two (kind, value) lists themselves are RCE.Gen.evalLoop0 / evalLoop1 (gen_constants.py checks colour and order)
+        e0 = tr_i16(parse_expr(m.group(3)), "b.turn")
+        e1 = tr_i16(parse_expr(m.group(5)), "b.turn.opp")
+        text = head + "def evaluateAvail : Bool := true\n"
+        text += (f"def evaluate (b : Board) : Int :=\n  let score : Int := {int(m.group(1))}\n"
+                 f"  let score := evalLoop0.foldl (fun score kv => {e0}) score\n"
+                 f"  let score := evalLoop1.foldl (fun score kv => {e1}) score\n  score\n")
+        status = {"available": True}
+    except (Unsupported, OSError) as e:
+        text = head + f"-- evaluate: NOT TRANSLATED ({e})\ndef evaluateAvail : Bool := false\ndef evaluate (b : Board) : Int := b.evaluate\n"
+        status = {"available": False, "reason": str(e)}
+    return text + "end RCE.Gen.Tr\n", status
+
+
+def write_if_changed(path, text):
+    os.makedirs(os.path.dirname(path), exist_ok=True)
+    old = open(path).read() if os.path.exists(path) else None
+    if old != text:
+        with open(path, "w") as f:
+            f.write(text)
+        print("gen_translate: wrote", path)
+    else:
+        print("gen_translate: unchanged", os.path.basename(path))
+
+
 def main():
     text, status = generate()
-    os.makedirs(os.path.dirname(OUT), exist_ok=True)
     os.makedirs(os.path.dirname(STATUS), exist_ok=True)
-    old = open(OUT).read() if os.path.exists(OUT) else None
-    if old != text:
-        with open(OUT, "w") as f:
-            f.write(text)
-        print("gen_translate: wrote", OUT)
-    else:
-        print("gen_translate: unchanged")
+    write_if_changed(OUT, text)
+    etext, estatus = generate_eval()
+    write_if_changed(OUT_EVAL, etext)
+    status["evaluate"] = estatus
     with open(STATUS, "w") as f:
         json.dump(status, f, indent=1)
     for k, v in status.items():
